@@ -70,6 +70,8 @@ var targets = []target{
 	{"oauthproxy.go", "isAllowedPath", "", ""},
 	{"oauthproxy.go", "isAllowedRoute", "OAuthProxy", "allowedRoutes:routes"},
 	{"pkg/app/redirect/validator.go", "IsValidRedirect", "validator", "allowedDomains:strs"},
+	{"pkg/ip/realclientip.go", "GetRealClientIP", "xForwardedForClientIPParser", "header:str"},
+	{"pkg/ip/realclientip.go", "getRemoteIP", "", ""},
 	{"pkg/cookies/csrf.go", "ExtractStateSubstring", "", ""},
 	{"pkg/cookies/csrf.go", "csrfCookieName", "", ""},
 	{"pkg/cookies/csrf.go", "GenerateCookieName", "", ""},
@@ -96,6 +98,8 @@ const (
 	kRegex   = "regex"
 	kCkOpts  = "cookieopts"
 	kHCookie = "httpcookie"
+	kIP      = "ip"
+	kHeader  = "header"
 	kAny     = "?"
 )
 
@@ -139,6 +143,10 @@ func leanOfKind(k string) string {
 		return "Go.CookieOpts"
 	case kHCookie:
 		return "Go.HttpCookie"
+	case kIP:
+		return "Option Go.IP"
+	case kHeader:
+		return "Str → Str"
 	}
 	panic("no Lean type for kind " + k)
 }
@@ -157,6 +165,8 @@ func zeroOfKind(k string) string {
 		return "Go.timeZero"
 	case kStrs:
 		return "([] : List Str)"
+	case kIP:
+		return "(none : Option Go.IP)"
 	}
 	panic("no zero value for kind " + k)
 }
@@ -220,6 +230,10 @@ func kindOfType(t ast.Expr) string {
 		return kCkOpts
 	case "http.SameSite":
 		return kInt
+	case "net.IP":
+		return kIP
+	case "http.Header":
+		return kHeader
 	case "func":
 		return kUnit
 	}
@@ -414,6 +428,8 @@ func (t *tr) expr(e ast.Expr) (string, string) {
 					return ident(id.Name) + ".host", kStr
 				case "req.Method":
 					return ident(id.Name) + ".method", kStr
+				case "req.RemoteAddr":
+					return ident(id.Name) + ".remoteAddr", kStr
 				case "route.method":
 					return ident(id.Name) + ".method", kStr
 				case "route.negate":
@@ -640,7 +656,7 @@ func (t *tr) call(x *ast.CallExpr) (string, string) {
 	case "fmt.Sprintf":
 		return t.sprintf(x.Args), kStr
 	case "fmt.Errorf":
-		return "(some " + t.sprintf(x.Args) + ")", kErr
+		return "(some ([] : Str))", kErr // only the nil-ness of an error is modelled, not its text
 	case "time.Now":
 		return "E.nowNs", kTime
 	case "time.Unix":
@@ -654,6 +670,12 @@ func (t *tr) call(x *ast.CallExpr) (string, string) {
 		return "(Go.urlParseRequestURI E " + a()[0] + ")", "tuple:url,err"
 	case "strings.Index":
 		return "(Go.stringsIndex " + strings.Join(a(), " ") + ")", kInt
+	case "strings.IndexRune":
+		return "(Go.stringsIndex " + a()[0] + " [" + a()[1] + "])", kInt
+	case "strings.TrimSpace":
+		return "(Go.stringsTrimSpace " + a()[0] + ")", kStr
+	case "net.ParseIP":
+		return "(E.parseIP " + a()[0] + ")", kIP
 	case "middlewareapi.GetRequestScope":
 		return a()[0] + ".scope", kScope
 	case "net.SplitHostPort":
@@ -685,6 +707,8 @@ func (t *tr) call(x *ast.CallExpr) (string, string) {
 		if id, ok := sel.X.(*ast.Ident); ok {
 			if k, ok := t.kinds[id.Name]; ok {
 				switch k + "." + sel.Sel.Name {
+				case "header.Get":
+					return "(" + ident(id.Name) + " " + a()[0] + ")", kStr
 				case "hmac.Sum":
 					return "(Go.hmacSum E " + ident(id.Name) + " " + a()[0] + ")", kStr
 				case "url.Hostname":
